@@ -107,11 +107,16 @@ def run_case(c):
     lscale = max(np.abs(ref["lam"]).max(), 1e-300)
     dscale = max(np.abs(ref["D"]).max(), 1e-300)
     gv_ref = None
+    from vlib.gen.layout import relayout
+
+    lrng = np.random.default_rng(c["seed"] + 7)
     # ---- run_qpoints, full option product
     for we in (False, True):
         for wg in (False, True):
             for wd in (False, True):
-                ph.run_qpoints(qs, with_eigenvectors=we, with_group_velocities=wg, with_dynamical_matrices=wd)
+                q_in, qkind = relayout(qs, lrng)  # list / Fortran order / strided view / read-only: same numbers
+                obs["qlayout_" + qkind] = obs.get("qlayout_" + qkind, 0) + 1
+                ph.run_qpoints(q_in, with_eigenvectors=we, with_group_velocities=wg, with_dynamical_matrices=wd)
                 d = ph.get_qpoints_dict()
                 opt = "ev=%d gv=%d dm=%d" % (we, wg, wd)
                 obs["n_option_cells"] = obs.get("n_option_cells", 0) + 1
@@ -163,9 +168,9 @@ def run_case(c):
             break
     # ---- single-q helpers
     for i, q in enumerate(qs[:3]):
-        f1 = ph.get_frequencies(q)
-        f2, e2 = ph.get_frequencies_with_eigenvectors(q)
-        D3 = ph.get_dynamical_matrix_at_q(q)
+        f1 = ph.get_frequencies(relayout(q, lrng)[0])
+        f2, e2 = ph.get_frequencies_with_eigenvectors(relayout(q, lrng)[0])
+        D3 = ph.get_dynamical_matrix_at_q(relayout(q, lrng)[0])
         obs["n_single_q"] = obs.get("n_single_q", 0) + 1
         for nm, lam in (("get_frequencies", lam_of(f1, factor)), ("get_frequencies_with_eigenvectors", lam_of(f2, factor))):
             if np.abs(np.sort(lam) - ref["lam"][i]).max() > 1e-10 * lscale:
